@@ -115,6 +115,14 @@ CHECKS = {
              "bytes (Hypothesis + coverage-guided fuzzing) run in a buffer whose terminator is the last accessible byte. Exploration.",
         note="Trusted: page protection/canaries, the dialect recogniser (for the strict-input oracle inside the fuzz target).",
         ref="3 C13"),
+    "C14": dict(
+        technique="model-based stateful testing (Hypothesis histories of hook configurations + operation programs incl. Utils) with link-time interposition of malloc/realloc/calloc/free and a tracking allocator",
+        text="Histories of 1-3 segments, each under one of five hook configurations (default, both custom, only malloc_fn, only free_fn, NULL "
+             "members; custom->default resets included), run C07 programs extended with cJSON_Utils calls and all print variants; per "
+             "configuration the counters of the hook side and of the --wrap'ped libc side must show that every request/release went where the "
+             "property says, realloc is unused once a hook is custom, nothing foreign is released and the ledger ends empty. Exploration.",
+        note="Trusted: --wrap sees every allocator reference of cJSON.c/cJSON_Utils.c in the test build; free_fn(NULL) counts as a legal no-op.",
+        ref="3 C14"),
     "C15": dict(
         technique="differential testing (Hypothesis documents x pointer strings: true pointers, single edits, free strings) against an RFC 6901 reference resolver; exhaustive (root,node) pairs per document for construction",
         text="GetPointerCaseSensitive must return exactly the node the Python RFC 6901 resolver designates (by position) or NULL, for true "
@@ -154,6 +162,15 @@ CHECKS = {
              "list/map model after every further append/insert/detach/replace/print/delete. Exploration over histories.",
         note="Order among equal keys is not asserted (no stability claim). Trusted: the C06 model.",
         ref="3 C19"),
+    "C20": dict(
+        technique="property-based generation of thread programs (Hypothesis) executed by a ThreadSanitizer-instrumented driver: happens-before race detection + differential solo-vs-concurrent digests",
+        engine="hypothesis + native/tsan_driver.c (gcc -fsanitize=thread)",
+        text="2-6 generated thread-private programs (parse, all print variants, edits, compare, duplicate, minify, pointer/patch/merge/sort "
+             "utilities) are run alone and then concurrently for 3 rounds with library and driver instrumented by ThreadSanitizer; any report "
+             "other than the documented global error position, or any digest differing from the solo run, is a violation. Exploration over "
+             "programs; schedules are whatever the OS produces (race detection is happens-before based, so it does not need the bad interleaving).",
+        note="The harness does not own the scheduler; only instrumented code is observed; race-free but order-dependent defects are visible only to the differential oracle.",
+        ref="3 C20"),
 }
 
 PENDING = {
